@@ -117,7 +117,8 @@ def gen_hp(spec, st):
                 lo = round((s.u('lo', j) - 0.5) * s.choice([1, 10, 1000], 'sc', j), 4)
                 hi = round(lo + s.u('span', j) * s.choice([0.5, 10, 1000], 'sc2', j) + 0.001, 4)
                 default = round(lo + (hi - lo) * s.u('def', j), 6)
-            decl.append({'name': f'r{i}p{j}', 'type': typ, 'min': lo, 'max': hi, 'default': default})
+            # same names on every route (two versions of one strategy): only bounds and types differ
+            decl.append({'name': f'p{j}', 'type': typ, 'min': lo, 'max': hi, 'default': default})
         r['program']['hp_decl'] = decl
         if 'dna' in rmode:
             genes = []
@@ -130,6 +131,9 @@ def gen_hp(spec, st):
                 else:
                     genes.append(alphabet[s.randint(0, 79, 'g', j)])
             r['program']['dna'] = ''.join(genes)
+            if i > 0 and spec['routes'][0]['program'].get('dna') and s.chance(0.5, 'same_dna'):
+                d0 = spec['routes'][0]['program']['dna']
+                r['program']['dna'] = (d0 + r['program']['dna'])[:len(decl)] if len(d0) < len(decl) else d0[:len(decl)]
     if 'explicit' in mode:
         decl = spec['routes'][0]['program']['hp_decl']
         hp = {}
